@@ -60,6 +60,10 @@ func ValidateTransaction(ctx sdk.Ctx, k Keeper, stdTx StdTx, params Params, tmNo
 			return types.ErrEmptyPublicKey(ModuleName)
 		}
 	}
+	// the public key must belong to the signer of the message
+	if !sdk.Address(pk.Address()).Equals(stdTx.GetSigner()) {
+		return sdk.ErrUnauthorized("the public key does not match the signer of the transaction")
+	}
 	// check for duplicate transaction to prevent replay attacks
 	txHash := tmTypes.Tx(txBz).Hash()
 	// make http call to tendermint to check txIndex // TODO remove this http call round trip and access directly
